@@ -24,6 +24,7 @@ import (
 type COp struct {
 	Kind string `json:"kind"` // own: compile+invoke on an engine of its own | shared: compile on the shared, initialised engine | invoke: a shared callable | eval: one-shot Eval
 	Prog int    `json:"prog"`
+	Var  int    `json:"var,omitempty"` // which variant of the environment's values: 0 = Vals; k > 0 = Vals with every string salted (strings the process has never seen)
 }
 
 type CWorker struct {
@@ -36,6 +37,29 @@ type ConcCase struct {
 	Env     map[string]*m.Type `json:"env"`
 	Vals    map[string]*m.Val  `json:"vals"`
 	Workers []CWorker          `json:"workers"`
+	NVar    int                `json:"nvar,omitempty"` // number of salted variants
+}
+
+// caseSeq numbers the workloads of this process: part of the salt, so that
+// salted strings are new to every process-wide cache keyed by run-time text.
+var caseSeq int64
+
+func saltStrings(v *m.Val, salt string) *m.Val {
+	if v == nil {
+		return nil
+	}
+	n := &m.Val{T: v.T, N: v.N, S: v.S, B: v.B, Tm: v.Tm, Fn: v.Fn}
+	if v.T.K == m.TStr {
+		n.S = v.S + salt
+	}
+	for _, e := range v.L {
+		n.L = append(n.L, saltStrings(e, salt))
+	}
+	for _, e := range v.M {
+		n.M = append(n.M, m.Entry{K: saltStrings(e.K, salt), V: saltStrings(e.V, salt)})
+	}
+	n.P = saltStrings(v.P, salt)
+	return n
 }
 
 func genConcCase(t *rapid.T) *ConcCase {
@@ -44,8 +68,23 @@ func genConcCase(t *rapid.T) *ConcCase {
 	c := &ConcCase{}
 	n := rapid.IntRange(2, 6).Draw(t, "nprogs")
 	for i := 0; i < n; i++ {
+		if i == 0 || rapid.IntRange(0, 3).Draw(t, "textkeyed") == 0 {
+			// built-ins whose work depends on run-time TEXT (patterns, time strings):
+			// whatever they memoise process-wide is keyed by data, not by the program
+			p, sv := g.FreshVar(m.Str, m.VStr(pick2(t, []string{"a", "^a", "[a-z]+", "\\d+", ".*", "(?i)ab", "b$", "(", "x{2,1}"}))), g.FreshVar(m.Str, nil)
+			switch rapid.IntRange(0, 2).Draw(t, "textkind") {
+			case 0:
+				c.Exprs = append(c.Exprs, m.Call("match", p, sv))
+			case 1:
+				c.Exprs = append(c.Exprs, m.Call("if", m.Call("match", p, sv), g.Expr(m.Num), g.Expr(m.Num)))
+			default:
+				c.Exprs = append(c.Exprs, m.Infix("&&", m.Call("match", p, sv), m.Call("match", sv, p)))
+			}
+			continue
+		}
 		c.Exprs = append(c.Exprs, g.Expr(g.AnyResultType()))
 	}
+	c.NVar = rapid.IntRange(1, 4).Draw(t, "nvar")
 	c.Env, c.Vals = g.Env, map[string]*m.Val{}
 	for name, v := range g.Vals {
 		v = v.Conform(nil)
@@ -56,7 +95,7 @@ func genConcCase(t *rapid.T) *ConcCase {
 		wk := CWorker{Spin: rapid.IntRange(0, 2000).Draw(t, "spin")}
 		k := rapid.IntRange(2, 8).Draw(t, "nops")
 		for j := 0; j < k; j++ {
-			wk.Ops = append(wk.Ops, COp{Kind: pick2(t, []string{"own", "own", "shared", "invoke", "invoke", "eval"}), Prog: rapid.IntRange(0, n-1).Draw(t, "prog")})
+			wk.Ops = append(wk.Ops, COp{Kind: pick2(t, []string{"own", "own", "shared", "invoke", "invoke", "eval"}), Prog: rapid.IntRange(0, n-1).Draw(t, "prog"), Var: rapid.IntRange(0, c.NVar).Draw(t, "var")})
 		}
 		c.Workers = append(c.Workers, wk)
 	}
@@ -104,28 +143,45 @@ func checkConc(c *ConcCase) *Outcome {
 			}
 		})
 	}
-	var host interface{}
+	seq := atomic.AddInt64(&caseSeq, 1)
+	variants := make([]map[string]*m.Val, c.NVar+1)
+	variants[0] = c.Vals
+	for k := 1; k <= c.NVar; k++ {
+		variants[k] = map[string]*m.Val{}
+		for name, v := range c.Vals {
+			variants[k][name] = saltStrings(v, fmt.Sprintf("~%d.%d", seq, k))
+		}
+	}
+	hosts := make([]interface{}, len(variants))
 	if hostOK {
-		host = run.EnvStruct(c.Vals)
+		for k := range variants {
+			hosts[k] = run.EnvStruct(variants[k])
+		}
 	}
 	en := run.NewEngine(run.VMSwitch, nil)
-	freshVals := func() *val.Env { return en.ValEnv(c.Vals) }
-	// ---- sequential baseline: each program alone
+	freshVals := func(k int) *val.Env { return en.ValEnv(variants[k]) }
+	// ---- sequential baseline BEFORE the concurrent phase: each program alone on variant 0.
+	// (The salted variants get their baseline AFTER the concurrent phase: running
+	// them alone first would hand every text-keyed process-wide cache its entries
+	// single-threaded, and the concurrent phase would only ever read them.)
 	compileErr := make([]bool, len(srcs))
-	alone := make([]string, len(srcs))
-	for i, src := range srcs {
+	alone := make([][]string, len(srcs))
+	runAlone := func(i, k int) string {
 		e := newConcEngine(i)
 		var cl yae.Callable
 		var cerr error
-		if p := run.Guard(func() { cl, cerr = e.Compile(src, run.TypeEnv(c.Env)) }); p != nil || cerr != nil {
-			compileErr[i] = true
-			alone[i] = "does-not-compile"
-			continue
+		if p := run.Guard(func() { cl, cerr = e.Compile(srcs[i], run.TypeEnv(c.Env)) }); p != nil || cerr != nil {
+			return "does-not-compile"
 		}
 		var v *val.Val
 		var err error
-		p := run.Guard(func() { v, err = cl(freshVals()) })
-		alone[i] = outcomeString(v, err, p)
+		p := run.Guard(func() { v, err = cl(freshVals(k)) })
+		return outcomeString(v, err, p)
+	}
+	for i := range srcs {
+		alone[i] = make([]string, len(variants))
+		alone[i][0] = runAlone(i, 0)
+		compileErr[i] = alone[i][0] == "does-not-compile"
 	}
 	// ---- the shared engine has finished its first compilation; shared callables exist
 	// two shared engines (VM and closure back end); program i's shared callable comes from engine i%2
@@ -149,11 +205,12 @@ func checkConc(c *ConcCase) *Outcome {
 	// ---- the concurrent phase
 	var inflight, overlapped, total int64
 	var wg sync.WaitGroup
-	var mu sync.Mutex
-	var mismatch []string
+	type opResult struct{ got, detail string }
+	results := make([][]opResult, len(c.Workers))
 	start := make(chan struct{})
 	for wi, wk := range c.Workers {
 		wg.Add(1)
+		results[wi] = make([]opResult, len(wk.Ops))
 		go func(wi int, wk CWorker) {
 			defer wg.Done()
 			<-start
@@ -166,6 +223,9 @@ func checkConc(c *ConcCase) *Outcome {
 				if compileErr[op.Prog] {
 					continue
 				}
+				if op.Var < 0 || op.Var >= len(variants) {
+					op.Var = 0
+				}
 				if atomic.AddInt64(&inflight, 1) > 1 {
 					atomic.AddInt64(&overlapped, 1)
 				}
@@ -173,7 +233,7 @@ func checkConc(c *ConcCase) *Outcome {
 				var v *val.Val
 				var err error
 				var p *run.Panic
-				tenv, venv := run.TypeEnv(c.Env), freshVals()
+				tenv, venv := run.TypeEnv(c.Env), freshVals(op.Var)
 				switch op.Kind {
 				case "own":
 					p = run.Guard(func() {
@@ -193,7 +253,7 @@ func checkConc(c *ConcCase) *Outcome {
 					})
 				case "eval":
 					if hostOK && !usesHarness[op.Prog] {
-						p = run.Guard(func() { v, err = yae.Eval(srcs[op.Prog], host) })
+						p = run.Guard(func() { v, err = yae.Eval(srcs[op.Prog], hosts[op.Var]) })
 					} else {
 						p = run.Guard(func() { v, err = sharedCl[op.Prog](venv) })
 					}
@@ -201,17 +261,39 @@ func checkConc(c *ConcCase) *Outcome {
 					p = run.Guard(func() { v, err = sharedCl[op.Prog](venv) })
 				}
 				atomic.AddInt64(&inflight, -1)
-				got := outcomeString(v, err, p)
-				if got != alone[op.Prog] {
-					mu.Lock()
-					mismatch = append(mismatch, fmt.Sprintf("worker %d op %d (%s prog %d): %q, alone %q (err=%v panic=%v)", wi, oi, op.Kind, op.Prog, got, alone[op.Prog], err, p))
-					mu.Unlock()
-				}
+				results[wi][oi] = opResult{outcomeString(v, err, p), fmt.Sprintf("err=%v panic=%v", err, p)}
 			}
 		}(wi, wk)
 	}
 	close(start)
 	wg.Wait()
+	// ---- baseline AFTER the concurrent phase for the salted variants
+	for i := range srcs {
+		for k := 1; k < len(variants); k++ {
+			if !compileErr[i] {
+				alone[i][k] = runAlone(i, k)
+			}
+		}
+	}
+	var mismatch []string
+	salted := 0
+	for wi, wk := range c.Workers {
+		for oi, op := range wk.Ops {
+			if compileErr[op.Prog] {
+				continue
+			}
+			if op.Var < 0 || op.Var >= len(variants) {
+				op.Var = 0
+			}
+			if op.Var > 0 {
+				salted++
+			}
+			if r := results[wi][oi]; r.got != alone[op.Prog][op.Var] {
+				mismatch = append(mismatch, fmt.Sprintf("worker %d op %d (%s prog %d variant %d): %q, alone %q (%s)", wi, oi, op.Kind, op.Prog, op.Var, r.got, alone[op.Prog][op.Var], r.detail))
+			}
+		}
+	}
+	R.Class("operations-on-text-new-to-the-process", salted)
 	if len(mismatch) > 0 {
 		return bad("concurrent outcomes differ from the outcomes of the same operations run alone:\n  %s\n programs: %s", strings.Join(mismatch, "\n  "), strings.Join(srcs, " ;; "))
 	}
@@ -224,7 +306,7 @@ func checkConc(c *ConcCase) *Outcome {
 var c14 = Register(&Prop[ConcCase]{ID: "C14", Name: "concurrent-workloads", Gen: genConcCase, Check: checkConc})
 
 func TestC14(t *testing.T) {
-	R.Rule = "generated workloads under the race detector: 4-32 goroutines, each a drawn sequence of 2-8 operations over 2-6 generated programs (mono / poly calls, built-in and user-registered lazy functions incl. ones that force a thunk twice, dynamic calls, literals): compile + invoke on an engine of its own, compile on a shared engine that has finished its first compilation, invoke a shared callable, one-shot Eval; drawn busy-spin start offsets; oracle: no race report (the detector halts the run; the workload is the replay file) and every operation's outcome equals the outcome of the same operation run alone beforehand; non-trivial = at least half of the workload's operations started while another goroutine was inside yae (atomic in-flight counter)"
+	R.Rule = "generated workloads under the race detector: 4-32 goroutines, each a drawn sequence of 2-8 operations over 2-6 generated programs (mono / poly calls, built-in and user-registered lazy functions incl. ones that force a thunk twice, dynamic calls, literals): compile + invoke on an engine of its own, compile on a shared engine that has finished its first compilation, invoke a shared callable, one-shot Eval; drawn busy-spin start offsets; oracle: no race report (the detector halts the run; the workload is the replay file) and the environment's values in 1-5 variants (the drawn values, and copies whose every string carries a salt unique to the workload, so that built-ins working on run-time text — match with the pattern from the environment in at least one program per workload — meet text new to the process while other goroutines are inside them); every operation's outcome equals the outcome of the same operation run alone (beforehand for the drawn values, afterwards for the salted ones); non-trivial = at least half of the workload's operations started while another goroutine was inside yae (atomic in-flight counter)"
 	R.Assume = []string{"the Go scheduler owns the interleaving: this samples schedules, it does not enumerate them", "the race detector has no false positives"}
 	reportKnown(t, "C14")
 	runRegress(t, "C14")
